@@ -12,7 +12,10 @@ RULE = ("repository test snippets + seeded random programs + shape catalogue + l
         "extracted Coq collector applied to the INPUT tree (value, line, column, name), and the input text at each reported position must be a quote; "
         "non-trivial = at least one literal reported; distinct by source text")
 
-LITS = ["0123456789", "01234567890", "x" * 256, "y" * 257, "éééééé", "ééééé", "literal_literal", "another long literal", "a" * 11, "日本語日本語"]
+LITS = ["0123456789", "01234567890", "x" * 256, "y" * 257, "éééééé", "ééééé", "literal_literal", "another long literal", "a" * 11, "日本語日本語",
+        # escape sequences: the length that counts is the VALUE's, the source text between the quotes is longer
+        "a" * 250 + "\\n" * 6, "\\x41" * 70, "\\u00e9" * 60, "b" * 127 + "\\\\" + "c" * 128, "\\u{1F600}" * 3, "12345678\\n\\n", "123456789\\n\\t",
+        "d" * 254 + "\\t\\t", "e" * 255 + "\\t\\t", "long line \\\n continued \\\n twice"]
 
 
 def literal_program(rng):
